@@ -261,7 +261,9 @@ class H2Protocol:
                 if idle and self.context.terminated.is_set():
                     self.connection.close_connection()
                     await self._flush()
-                await self.send(Updated(idle=idle))
+                if not self.closed:
+                    # Otherwise there is no connection left to time out
+                    await self.send(Updated(idle=idle))
             elif isinstance(event, Request):
                 await self._create_server_push(event.stream_id, event.raw_path, event.headers)
         except (
